@@ -237,6 +237,7 @@ class Program:
         except (OSError, SyntaxError) as exc:
             raise AnalysisError(f"cannot parse {path}: {exc}") from exc
         inlined: List[str] = []
+        renamed: Dict[str, str] = {}
         if not trusted and not os.environ.get("SV_NO_INLINE"):
             from .inline import inline_unknown_helpers, load_baseline
 
@@ -244,9 +245,9 @@ class Program:
             if _BASELINE is None:
                 _BASELINE = load_baseline()
             try:
-                inlined = inline_unknown_helpers(tree, modname, _BASELINE)
+                inlined, renamed = inline_unknown_helpers(tree, modname, _BASELINE)
             except RecursionError:
-                inlined = []
+                inlined, renamed = [], {}
         _set_parents(tree)
         mod = Module(modname, path, rel, src, tree, trusted=trusted)
         mod.inlined = inlined  # type: ignore[attr-defined]
@@ -266,6 +267,18 @@ class Program:
             elif isinstance(n, ast.AnnAssign) and isinstance(n.target, ast.Name) and n.value is not None:
                 mod.consts[n.target.id] = n.value
         self._collect_defs(mod, tree.body, prefix="", cls=None, parent=None)
+        # renamed baseline functions stay addressable under their baseline name
+        mod.renamed = renamed  # type: ignore[attr-defined]
+        for new_q, old_q in renamed.items():
+            fn = mod.funcs.get(new_q)
+            if fn is None or old_q in mod.funcs:
+                continue
+            mod.funcs[old_q] = fn
+            if "." in old_q:
+                cname, mname = old_q.rsplit(".", 1)
+                ci = mod.classes.get(cname)
+                if ci is not None and mname not in ci.methods:
+                    ci.methods[mname] = fn
         self.modules[modname] = mod
 
     def _collect_defs(self, mod: Module, body, prefix: str, cls, parent) -> None:
